@@ -412,6 +412,7 @@ fn cmd_replay(args: &BTreeMap<String, String>) -> i32 {
         // debugging aid: replay quietly, then the last action with sub-step tracing (pipe through head)
         let mut w = World::new(rf.cluster.clone());
         w.focus = Some(focus);
+        w.verbose = args.contains_key("verbose-all");
         let n = rf.actions.len();
         for (i, a) in rf.actions.iter().enumerate() {
             if i + 1 == n {
@@ -426,7 +427,7 @@ fn cmd_replay(args: &BTreeMap<String, String>) -> i32 {
             if let Some(raw) = x.raw.as_ref() {
                 let r = &raw.raft;
                 eprintln!("  end n{} {:?} t{} vote{} lead{} promotable {} elapsed {} rand_timeout {} commit{} applied{} last{} pending_conf_index {} conf {:?}", x.id, r.state, r.term, r.vote, r.leader_id, r.promotable(), r.election_elapsed, r.randomized_election_timeout(), r.raft_log.committed, r.raft_log.applied, r.raft_log.last_index(), r.pending_conf_index, r.prs().conf().to_conf_state());
-                eprintln!("     prs {:?} snap_outstanding {:?}", x.obs.prs.iter().map(|p| (p.id, format!("{:?}", p.state), p.matched, p.next_idx, p.pending_snapshot, p.pending_request_snapshot, p.paused)).collect::<Vec<_>>(), x.snap_outstanding);
+                eprintln!("     prs {:?} snap_outstanding {:?} snap_handed {:?}", x.obs.prs.iter().map(|p| (p.id, format!("{:?}", p.state), p.matched, p.next_idx, p.pending_snapshot, p.pending_request_snapshot, p.paused)).collect::<Vec<_>>(), x.snap_outstanding, x.snap_handed);
                 let lo = r.raft_log.first_index();
                 let hi = r.raft_log.last_index();
                 if let Ok(es) = r.raft_log.slice(lo, hi + 1, None, raft::GetEntriesContext::empty(false)) {
@@ -742,6 +743,7 @@ fn cmd_scenario(args: &BTreeMap<String, String>) -> i32 {
         },
         "persist_notice_after_truncation" => scripted::persist_notice_after_truncation(),
         "duplicate_forwarded_read" => scripted::duplicate_forwarded_read(),
+        "elected_before_persistence_is_reported" => scripted::elected_before_persistence_is_reported(),
         "stale_persist_notice_on_reelected_leader" => scripted::stale_persist_notice_on_reelected_leader(),
         "persist_notice_after_truncating_ready" => scripted::persist_notice_after_truncating_ready(),
         _ => {
